@@ -247,6 +247,9 @@ func (fc *FnCtx) inline(f *ssa.Function, args []Val, rt types.Type) (*Val, error
 	if err := sub.execBody(fc.cur, args); err != nil {
 		return nil, err
 	}
+	if rt == nil {
+		rt = f.Signature.Results()
+	}
 	if len(sub.exits) == 0 {
 		// callee never returns (always panics)
 		fc.cur.reach = "false"
@@ -595,7 +598,7 @@ func frameFormula(vc *VC, oldT, newT, frontier string, mt modTarget) string {
 	for _, x := range mt.refs {
 		conds = append(conds, "(distinct "+r+" "+x+")")
 	}
-	return "(forall ((" + r + " Int)) (! (=> " + mkAnd(conds...) + " (= (select " + newT + " " + r + ") (select " + oldT + " " + r + "))) :pattern ((select " + newT + " " + r + "))))"
+	return "(forall ((" + r + " Int)) (! (=> " + mkAnd(conds...) + " (= (select " + newT + " " + r + ") (select " + oldT + " " + r + "))) :pattern ((select " + newT + " " + r + ")) :qid fr." + smtIdent(mt.comp) + "))"
 }
 
 func (fc *FnCtx) applyModifies(con *Contract, se *SpecEnv, pre *State) error {
@@ -803,6 +806,16 @@ func (fc *FnCtx) callMods(c *ssa.CallCommon, li *loopInfo, depth int) {
 		for _, comp := range fc.staticModComps(con) {
 			li.mods[comp] = true
 		}
+		return
+	}
+	if name == "sort.Sort" {
+		if mi, ok := c.Args[0].(*ssa.MakeInterface); ok {
+			if st, ok := mi.X.Type().Underlying().(*types.Slice); ok {
+				li.mods[elemComp(st.Elem())] = true
+				return
+			}
+		}
+		li.modAll = true
 		return
 	}
 	if ms, ok := builtinMods[name]; ok {
